@@ -17,6 +17,7 @@ from xdsl.traits import is_side_effect_free
 from snaxc.dialects import accfg
 from snaxc.inference.helpers import (
     get_initial_value_for_scf_for_lcv,
+    has_accfg_effects,
     val_is_defined_in_block,
 )
 from snaxc.inference.trace_acc_state import all_setup_ops_in_region, infer_state_of
@@ -111,6 +112,11 @@ class PullSetupOpsOutOfLoops(RewritePattern):
 
         # only do this for the first setup op in the loop
         if op.in_state is None or op.in_state.owner != loop_op.body.block:
+            return
+
+        # if ops in the loop may change the accelerator state behind our back, every field has to be
+        # written again in each iteration anyway: hoisting gains nothing (and would be repeated forever)
+        if has_accfg_effects(loop_op):
             return
 
         # iterate over all setups inside this loop and check if their values are loop-invariant or not
